@@ -138,6 +138,9 @@ def run(ck):
     ck.props()
     rnd = random.Random(ck.seed)
     scale = 1 if ck.tier == "quick" else 20
+    ok, what = G.probe_bytes_offset_fetch()
+    ck.finding("F-C07-3", not ok, "send_offset_fetch_request with a bytes group name: the request is never sent (TypeError from the encoder, client.py:765 does not coerce the group)",
+               dict(what, replay_op="history", monitor=PID))
 
     def run_batch(label, hists):
         return G.run_batch(ck, label, hists, PID, THEOREMS)
